@@ -31,7 +31,7 @@ namespace vf {
 enum VecFeat {
   F_GROW_HEAP = 0, F_SHRINK_INLINE, F_XFER_MIXED, F_INTERIOR, F_EMPTY_ERASE, F_NONPTR_SRC, F_ALIAS, F_LIMIT,
   F_REALLOC, F_HANDOVER, F_FITS_INTERIOR, F_INLINE_XFER, F_RELOCATE, F_TWO_BLOCKS, F_INPUT_SRC, F_FROM_AUX,
-  F_SWAP2, F_BULK, F_RELOC_THEN_MUT, F_ALIAS_HARD, F_SELF_OP, F_CTOR, F_CMP, F_ALLOC_FAIL, F_VEC_NFEAT
+  F_SWAP2, F_BULK, F_RELOC_THEN_MUT, F_ALIAS_HARD, F_SELF_OP, F_CTOR, F_CMP, F_ALLOC_FAIL, F_CAP_GREW, F_VEC_NFEAT
 };
 inline const char *vec_feat_name(int i) {
   static const char *n[] = {"inline_to_heap_growth", "heap_to_inline_shrink", "move_swap_mixed_states", "interior_insert_erase",
@@ -39,7 +39,7 @@ inline const char *vec_feat_name(int i) {
                             "reallocation", "heap_buffer_handover", "fits_capacity_interior_op", "within_N_transfer_unequal_fill",
                             "memcpy_relocation", "two_heap_blocks", "single_pass_source", "ctor_from_vector_rvalue",
                             "swap2", "bulk_append", "relocate_then_3_mutations", "alias_at_or_after_pos_or_realloc",
-                            "self_assign_or_self_swap", "constructor_rebuild", "comparison", "allocation_failure_survived"};
+                            "self_assign_or_self_swap", "constructor_rebuild", "comparison", "allocation_failure_survived", "capacity_grew_in_a_growing_op"};
   return (i >= 0 && i < F_VEC_NFEAT) ? n[i] : 0;
 }
 
@@ -351,6 +351,14 @@ class VecInterp {
       }
       if (keep > 0 && keep < b.size && cls != K_RESERVE) feature(F_FITS_INTERIOR);
     }
+    // ---- C18: a growing operation (assign excluded: it may size exactly) that has to change the capacity multiplies it by >= 1.5
+    // unless the size_type limits it
+    if (T::kind != 2 && cls == K_GROW && !w_threw && cap != b.cap && b.cap > 0 && strncmp(what, "assign", 6) != 0 && strncmp(what, "operator=", 9) != 0) {
+      const long stmax = static_cast<long>(std::min<unsigned long long>(std::numeric_limits<typename V::size_type>::max(), 1ull << 40));
+      if (cap > b.cap && cap < stmax && 2 * cap < 3 * b.cap)
+        violation(P18 | PSOFT, "%s: capacity grew from %ld to %ld: factor below 1.5 without being limited by size_type", what, b.cap, cap);
+      if (cap > b.cap) feature(F_CAP_GREW);
+    }
     if (!inl && b.inl && cap > 0) feature(F_GROW_HEAP);
     if (inl && !b.inl && b.cap > 0) feature(F_SHRINK_INLINE);
     if (d != b.data && !inl && !b.inl && b.cap > 0 && cap > 0 && (cls == K_GROW || cls == K_RESERVE || cls == K_SHRINK)) feature(F_REALLOC);
@@ -490,6 +498,7 @@ class VecInterp {
       case 10: return HASF(F_ALIAS_HARD) != 0;
       case 13: return HASF(F_SWAP2) != 0 && ctx().case_mut_ops >= 3;
       case 14: return HASF(F_RELOCATE) && HASF(F_RELOC_THEN_MUT);
+      case 18: return HASF(F_CAP_GREW) && ctx().case_mut_ops >= 4;
       default: return base;
     }
 #undef HASF
